@@ -15,7 +15,8 @@ for d in args:
     m = json.load(open(mp))
     ids = ids_override or m.get("checks") or [m["property"]]
     t0 = time.time()
-    r = subprocess.run([os.path.join(VERIF, "tools", "seedtest.py"), os.path.join(d, "patch.diff")] + ids,
+    patch = os.path.join(d, "patch_head.diff") if os.path.exists(os.path.join(d, "patch_head.diff")) else os.path.join(d, "patch.diff")
+    r = subprocess.run([os.path.join(VERIF, "tools", "seedtest.py"), patch] + ids,
                        stdout=subprocess.PIPE, stderr=subprocess.STDOUT, text=True)
     det = m.setdefault("detection", {})
     cur = None
